@@ -34,7 +34,7 @@ def run(ctx):
     for i, rr in enumerate(runs):
         ch = srvfam.consts(ctx, NReq=8, Tags=set(range(1, 9)), Fids={1}, Kinds={"Stat", "Clunk", "Attach"}, InitFids={1}, CanClose=True)
         hc = {"n": 4 if q else 5, "m": 1, "hmax": 3 if q else 4, "groups": False, "close": True, "partial": rr["partial"],
-              "kinds": rr["kinds"], "maxcases": 50 if q else 600, "permmax": 3 if q else 4}
+              "kinds": rr["kinds"], "maxcases": 50 if q else 600, "permmax": 3 if q else 4, "closevariants": True}
         tag = "closeheld%d" % i
         hrep, tp, ep, bp = held_run(ctx, ch, hc, tag, 700000 + 10000 * i)
         rj, tl = srvfam.run_trace_validation(ctx, tp, ch, name="Srv9PTrace:" + tag)
@@ -52,7 +52,7 @@ def run(ctx):
         cr = srvfam.consts(ctx, NReq=n, Tags=set(range(1, n + 1)), Fids={1, 2, 3}, Kinds={"Attach", "Stat", "Clunk", "Walk", "Flush"},
                            Late=True, InitFids={1}, CanClose=True)
         rc = {"cases": 150 if q else 1500, "nreq": n, "kinds": ["Attach", "Stat", "Clunk", "Walk", "Flush"], "shared": False,
-              "close": True, "extra": False, "latep": 20, "sendp": 40, "probe": False}
+              "close": True, "extra": False, "latep": 20, "sendp": 40, "probe": False, "closevariants": True}
         tag = "crand%d" % i
         rrep, tp, ep, bp = srvfam.random_run(ctx, cr, rc, tag, 800000 + 20000 * i)
         rj, tl = srvfam.run_trace_validation(ctx, tp, cr, name="Srv9PTrace:" + tag)
@@ -64,6 +64,30 @@ def run(ctx):
         elines += el
         traces += rrep.get("cases_total", 0)
         samples += list(rrep.get("samples", []))[:1]
+    # 5. slow FidDestroy / ConnClosed callbacks (parked inside the callback while other goroutines run): the close sweep
+    #    is then not atomic, which the model does not describe, so these runs are judged by the monitors only
+    cr = srvfam.consts(ctx, NReq=5, Tags=set(range(1, 6)), Fids={1, 2, 3}, Kinds={"Attach", "Stat", "Clunk", "Walk"}, Late=True, InitFids={1, 2},
+                       CanClose=True)
+    rc = {"cases": 150 if q else 1500, "nreq": 5, "kinds": ["Attach", "Attach", "Walk", "Stat", "Clunk"], "shared": False, "close": True,
+          "extra": False, "latep": 20, "sendp": 50, "probe": False, "closevariants": True, "cbgate": True}
+    rrep, tp, ep, bp = srvfam.random_run(ctx, cr, rc, "cbgate", 1000000)
+    vd, el = srvfam.run_monitor(ctx, ep, name="Mon9P:cbgate")
+    srvfam.report_verdicts(ctx, vd, PROPS, bp, cr, "TestRandom", ext_path=ep)
+    verdicts += vd
+    elines += el
+    traces += rrep.get("cases_total", 0)
+    # 6. ungated pile-up: replies waiting behind a send goroutine stuck in Write when the connection ends
+    cf = srvfam.consts(ctx, NReq=16, Tags=set(range(1, 17)), Fids={1}, InitFids={1}, CanClose=True)
+    env = {"VERIF_CFG": json.dumps(srvfam.harness_cfg(cf)), "VERIF_CASES": 150 if q else 2000, "VERIF_ID_BASE": 1200000}
+    tpf, epf, bpf = ctx.path("trace_cf.ndjson"), ctx.path("ext_cf.ndjson"), ctx.path("beh_cf.ndjson")
+    env.update({"VERIF_TRACE_OUT": tpf, "VERIF_EXT_OUT": epf, "VERIF_BEH_OUT": bpf})
+    frep, crashes = ctx.go_engine_resilient("srvh", "TestCloseFree", env=env, ext_out=epf, timeout=1500, name="TestCloseFree")
+    vd, el = srvfam.run_monitor(ctx, epf, name="Mon9P:closefree")
+    srvfam.report_verdicts(ctx, vd, PROPS, bpf, cf, "TestCloseFree", ext_path=epf)
+    verdicts += vd
+    elines += el
+    traces += frep.get("cases_total", 0)
+    samples += list(frep.get("samples", []))[:1]
     cov_d = {
         "states": states, "transitions": trans, "traces_validated_against_impl": traces, "samples": samples[:4],
         "evaluations": traces, "distinct_nontrivial": len(paths) + plans,
